@@ -41,7 +41,7 @@ Theorem c16_heap_strict_heap : forall (T : Type) (t : @tree T), HeapS t -> Heap 
 Proof. exact @HeapS_Heap. Qed.
 
 (** history level, any lawful item: every live treap satisfies the exact heap invariant, denotes the values of the (priority, value) list machine and carries IN ORDER exactly that machine's priorities - priorities are created once, never changed, and travel with their elements *)
-Theorem c16_history_priorities : forall (T M A : Type) (update : T -> option T -> option T -> T) (push : T -> option T -> option T -> T * option T * option T) (size : T -> Z) (modify : M -> T -> T) (elem : T -> Z) (agg : T -> A) (act : M -> Z -> Z) (aggf : list Z -> A) (Pending : T -> list M -> Prop), lawful update push size modify elem agg act aggf Pending -> forall (mk : Z -> T) (md : amod -> M) (actc : amod -> Z -> Z), (forall v : Z, Fresh size elem agg aggf Pending (mk v)) -> (forall v : Z, elem (mk v) = v) -> (forall (m : amod) (e : Z), act (md m) e = actc m e) -> forall (ps : list Z) (ops : list cop) (want : list (list pv)), prun actc [] ps ops = Some want -> Forall2 (fun t pxs => HeapS t /\ Rep size elem agg act aggf Pending t (map snd pxs) /\ prios t = map fst pxs) (run_final update push size modify elem agg ps (map (conv mk md) ops)) want.
+Theorem c16_history_priorities : forall (T M A : Type) (update : T -> option T -> option T -> T) (push : T -> option T -> option T -> T * option T * option T) (size : T -> Z) (modify : M -> T -> T) (elem : T -> Z) (agg : T -> A) (act : M -> Z -> Z) (aggf : list Z -> A) (Pending : T -> list M -> Prop), lawful update push size modify elem agg act aggf Pending -> forall (mk : Z -> T) (md : amod -> M) (actc : amod -> Z -> Z), (forall v : Z, Fresh size elem agg aggf Pending (mk v)) -> (forall v : Z, elem (mk v) = v) -> (forall (m : amod) (e : Z), act (md m) e = actc m e) -> forall (ps : list Z) (ops : list cop) (want : list (list pv)), prun actc [] ps ops = Some want -> Forall2 (fun t pxs => HeapS t /\ Rep size elem agg act aggf Pending t (map snd pxs) /\ prios t = map fst pxs) (run_final update push size modify elem agg ps (map (conv modify mk md) ops)) want.
 Proof. exact @history_inv. Qed.
 
 (** on every correspondence case, agreement with the model implies the specification check (heap order, priorities only moved, Cartesian shape): the batch lemma about the model carries the specification to the implementation by proof *)
